@@ -127,7 +127,7 @@ PROPS = {
     "C12": {
         "bin": "px_layers", "budget_ms": 30000, "wall_cap": {"quick": 600, "thorough": 2400},
         "rule": "every glyph 0..255 of every built-in font page 0..=42 as the middle cell of 3-cell rows with neighbours from {0, 32, 255, 219, 'A'}, 8 colour contexts (incl. bright, equal fg/bg and an extra palette colour), bold on/off, "
-                "both settings of normalize_whitespaces; every glyph that is blank in its own page between cells of another font page (every page x 3 other pages); all stacks of 2 (thorough 3) layers of the small layer menu (alpha / offset / hidden / chars / attributes layers) above a base layer in 6 states (plain, hidden, locked, moved, alpha, only its first row stored) and below a small floating layer low in the document for the flattening step; a copy of each page font with its blank glyphs edited in place (stale checksum) next to the original; "
+                "both settings of normalize_whitespaces; every glyph that is blank in its own page between cells of another font page (every page x 3 other pages); all stacks of 2 (thorough 3) layers of the small layer menu (alpha / offset / hidden / chars / attributes layers) above a base layer in 6 states (plain, hidden, locked, moved, alpha, only its first row stored) and below a small floating layer low in the document for the flattening step; a copy of each page font with its blank glyphs edited in place (stale checksum) next to the original; 8 special documents (colours encoded as RGB values incl. RGB black x bold x 5 glyph kinds on an alpha / opaque layer, with / without an alpha layer beneath, with / without a default font page of another cell height, unfilled last row and column); "
                 "oracle: byte-identical render_to_rgba of input and ColorOptimizer::optimize(input), same size. non-trivial = one middle glyph / one stack",
         "level_text": "the complete glyph range of all built-in fonts and the complete small layer-stack scope are pushed through the real optimiser and renderer and compared pixel for pixel",
         "level_note": "the optimiser is a left-to-right fold over the previous cell's attribute, so 3-cell rows determine its behaviour; the primary font slot is set to the page under test so that the renderer draws every glyph row",
@@ -137,7 +137,7 @@ PROPS = {
     "C13": {
         "bin": "px_layers", "budget_ms": 30000, "wall_cap": {"quick": 600, "thorough": 2400},
         "rule": "all stacks of 1 and 2 layers over the rich layer menu (3 sizes x 4 offsets x 3 modes x alpha x visible x up to 15 contents incl. transparent-colour half blocks, visible NUL and invisible cells) and all stacks of 3 (thorough 4) layers over the small menu; "
-                "laws L1-L7 (L6: a layer placed with set_offset after a preview offset; L7: row storage - trailing rows not stored / rows stored beyond the height) and the reference compositor R evaluated on every stack at every position of the bounding box + 2 cells; non-trivial = the stack shows at least one visible cell",
+                "laws L1-L10 (L1: empty alpha layer of every mode and with its own default font page anywhere; L4: an opaque layer of every mode hides what is beneath; L6: a layer placed with set_offset after a preview offset; L7: row storage - trailing rows not stored / rows stored beyond the height; L8: topmost first among chars / attributes layers; L9: invisible cells of alpha layers that hold a character, colours and other flags; L10: the visible cell of a topmost normal layer is shown, every colour of it that is not the transparent colour) and the reference compositor R evaluated on every stack at every position of the bounding box + 2 cells; non-trivial = the stack shows at least one visible cell",
         "level_text": "the complete small scope of layer stacks is composited by the real Buffer::get_char and checked against metamorphic stacking laws and a reference compositor transcribed from the statement",
         "level_note": "invisible results compare as invisible only; the reference compositor applies to normal-mode layers without transparent colours, the laws to all stacks",
         "technique": "small-scope exhaustive enumeration with metamorphic oracles and a reference model compared on every case",
